@@ -17,13 +17,23 @@ var effectFreePkgs = map[string]bool{
 	"runtime/pprof":                            true,
 }
 
+// standard-library packages whose functions do not write memory reachable from their arguments
+// (results are unconstrained unless a dependency spec says more). Listed in the evidence when used.
+var pureStdPkgs = map[string]bool{
+	"strings": true, "strconv": true, "unicode": true, "unicode/utf8": true, "time": true, "math": true, "math/bits": true,
+	"errors": true, "fmt": true, "bytes": true, "path": true, "path/filepath": true, "regexp": true, "net/mail": true, "mime": true,
+	"encoding/base64": true, "encoding/hex": true, "crypto/sha256": true, "hash": true, "github.com/google/uuid": true,
+	"golang.org/x/text/encoding/ianaindex": true, "golang.org/x/text/encoding": true,
+}
+
 func (vc *VC) evalArgs(st *State, call *ast.CallExpr, sig *types.Signature) []*Value {
 	var args []*Value
 	np := sig.Params().Len()
 	if len(call.Args) == 1 && np > 1 {
-		// f(g()) with multi-value g
-		rs := vc.evalMulti(st, call.Args[0], np)
-		return rs
+		if _, isTuple := vc.typeOf(call.Args[0]).(*types.Tuple); isTuple {
+			// f(g()) with multi-value g
+			return vc.evalMulti(st, call.Args[0], np)
+		}
 	}
 	for i, a := range call.Args {
 		var pt types.Type
@@ -236,6 +246,12 @@ func (vc *VC) callFunc(st *State, call *ast.CallExpr, callee *types.Func, sig *t
 	if effectFreePkgs[pkgPath] {
 		vc.depsUsed["effect-free (logging/metrics/profiling): "+pkgPath] = true
 		return vc.havocResults(st, origin.Name(), sig)
+	}
+	if pureStdPkgs[pkgPath] {
+		vc.depsUsed["no-heap-effect library call (result unconstrained): "+full] = true
+		rs := vc.havocResults(st, origin.Name(), sig)
+		vc.havocAlloc(st)
+		return rs
 	}
 	// 3. interface method without contract: unknown implementation
 	if recv != nil && isInterface(recvT) {
@@ -946,7 +962,7 @@ func (vc *VC) evalAppend(st *State, call *ast.CallExpr) *Value {
 		if s.Arr != "0" {
 			lim := app("+", s.Off, s.Len)
 			vc.rowUpdate(st, comp, sort, s.Arr, func(i, nc, oc string) string {
-				return smtImp(app("<", i, lim), smtEq(nc, oc))
+				return smtImp(smtOr(smtEq(s.Arr, "0"), app("<", i, lim)), smtEq(nc, oc))
 			})
 		}
 		// new backing array: prefix copied from s, then the tail
